@@ -63,6 +63,8 @@ def gen_scenario(rng, small=False):
         r = rng.random()
         echo = None if r < 0.35 else GRID * rng.choice([1, 2, 3, 31, 32, 33])
         rply = None if rng.random() < 0.5 else GRID * rng.choice([2, 4, 5, 34, 63, 64, 65])
+        if echo is not None and rng.random() < 0.15:
+            rply = echo                      # both lines arrive in one read: two transitions in one loop iteration
         plan.append({"lat": GRID * rng.choice([0, 0, 0, 0, 1, 32, 64]), "fail": rng.random() < 0.08, "echo": echo, "rply": rply})
     default_plan = rng.choice([{"lat": 0, "fail": False, "echo": GRID * 2, "rply": GRID * 4},
                                {"lat": 0, "fail": False, "echo": None, "rply": None},
@@ -73,7 +75,7 @@ def gen_scenario(rng, small=False):
         when = GRID * rng.choice([1, 2, 3, 4, 33, 34, 35, 65, 66, 97, 98, 130, 300])
         events.append((when, ("rx", rng.choice(["echo", "rply", "foreign_echo", "foreign_rply", "other"]), i)))
     if rng.random() < 0.15:
-        events.append((GRID * rng.choice([3, 34, 70, 200]), ("lost",)))
+        events.append((GRID * rng.choice([3, 34, 70, 200]), ("lost", rng.choice([None, None, "transport", "serial", "oserror"]))))
         if rng.random() < 0.6:
             events.append((GRID * rng.choice([210, 400]), ("made",)))
             if rng.random() < 0.7:
@@ -81,6 +83,19 @@ def gen_scenario(rng, small=False):
                 cmds.append({"kind": "rq30c9", "idx": 11, "prio": 0, "max_retries": 3, "timeout": 20_000_000, "wfr": False})
     events.sort(key=lambda e: e[0])
     return {"lifo": rng.random() < 0.4, "mode": mode, "cmds": cmds, "events": events, "plan": plan, "default_plan": default_plan}
+
+
+def lost_error(kind):
+    """What a transport hands to connection_lost(): nothing (clean close), the library's own error, or the OS / pyserial one."""
+    if kind is None:
+        return None
+    if kind == "transport":
+        from ramses_tx import exceptions as exc  # noqa: PLC0415
+        return exc.TransportError("scripted: connection lost")
+    if kind == "serial":
+        from serial import SerialException  # noqa: PLC0415
+        return SerialException("scripted: device reports readiness to read but returned no data")
+    return OSError(5, "scripted: Input/output error")
 
 
 def build_cmd(c):
@@ -250,7 +265,14 @@ def _run_impl(scn, horizon_us=80_000_000):
                         proto._context.connection_made(tr)
                 loop.call_at(ts, made)
             elif ev[0] == "lost":
-                loop.call_at(ts, lambda: proto.connection_lost(None))
+                def lost(k=(ev[1] if len(ev) > 1 else None)):
+                    w = proto._wait_connection_lost
+                    try:
+                        proto.connection_lost(lost_error(k))
+                    finally:   # what Gateway.stop() / wait_for_connection_lost() would do: collect the transport's error
+                        if w is not None and w.done() and not w.cancelled():
+                            w.exception()
+                loop.call_at(ts, lost)
             elif ev[0] == "call":
                 loop.call_at(ts, lambda i=ev[1]: loop.create_task(caller(i)))
             elif ev[0] == "rx":
